@@ -41,6 +41,11 @@ def cases(draw):
     cfg = draw(st.one_of(CMS_CFGS, CMS_CFGS, HH_CFG, HLL_CFG))
     log = cfg["kind"] in ("log8", "log16")
     pool = draw(st.lists(KEYS, min_size=2, max_size=6))
+    if cfg["kind"] == "hh" and draw(st.booleans()):
+        # keys longer than max_key_len that share their first max_key_len bytes (the sketch stores them as one key), and that prefix itself
+        m = cfg["max_key_len"]
+        stem = (pool[0] + b"stem-stem-stem-stem")[:m]
+        pool = pool + [stem + b"x", stem + b"yz", stem]
     key = st.sampled_from(pool)
     vmax = 3000 if log else 10**4  # log: may cross the 2048-draw batch boundary (Numba's generator is re-seeded per side)
     val = st.one_of(st.sampled_from([1, 1, 2, 3, 16, 17, 255, 256, 257]), st.integers(1, 40), st.integers(1, vmax))
@@ -75,13 +80,22 @@ def cases(draw):
         op["k"] = draw(key)
         op["v"] = draw(val)
     elif kind == "add_ngram":
-        op["k"] = draw(st.one_of(key, vs.biased_bytes(0, 40), vs.biased_bytes(0, 40), st.binary(min_size=250, max_size=300)))
+        # also keys that start with a run of one byte value (0xff, 0x00, 0x80) as long as or longer than the ngram
+        runs = st.builds(lambda b, k, t: bytes([b]) * k + t, st.sampled_from([0xFF, 0xFF, 0x00, 0x80]), st.integers(1, 20), st.binary(max_size=5))
+        op["k"] = draw(st.one_of(key, vs.biased_bytes(0, 40), vs.biased_bytes(0, 40), runs, st.binary(min_size=250, max_size=300)))
         op["n"] = draw(st.integers(1, len(op["k"]) + 2)) if len(op["k"]) < 100 else draw(st.sampled_from([1, 2, 5, 200, 255, 256, len(op["k"]) - 1, len(op["k"])]))
         if draw(st.integers(0, 9)) == 0:  # sizes that do not fit 32 bits
             op["n"] = draw(st.sampled_from([2**32 + 1, 2**32 + 2, 2**40 + 3, 2**64 - 1]))
     else:
-        op["keys"] = draw(st.lists(st.one_of(key, vs.biased_bytes(0, 24), vs.biased_bytes(0, 24), st.binary(min_size=254, max_size=260)), min_size=0, max_size=4))
+        runs = st.builds(lambda b, k, t: bytes([b]) * k + t, st.sampled_from([0xFF, 0xFF, 0x00, 0x80]), st.integers(1, 20), st.binary(max_size=5))
+        op["keys"] = draw(st.lists(st.one_of(key, vs.biased_bytes(0, 24), vs.biased_bytes(0, 24), runs, st.binary(min_size=254, max_size=260)), min_size=0, max_size=4))
         op["n"] = draw(st.one_of(st.integers(1, 9), st.integers(1, 9), st.integers(1, 9), st.sampled_from([2**32 + 1, 2**32 + 3, 2**64 - 1])))
+    if kind in ("add_ngram", "update_ngram") and cfg["kind"] in ("linear", "hh") and draw(st.integers(0, 3)) == 0:
+        # one window of the text is already at the 32-bit ceiling before the call
+        text = op["k"] if kind == "add_ngram" else (op["keys"][0] if op["keys"] else b"")
+        if text:
+            w0 = text if len(text) <= op["n"] else text[: op["n"]]
+            pre = pre + [(w0, 2**32 - 1)]
     cont = draw(st.lists(st.tuples(key, st.integers(1, 30)), min_size=6, max_size=6))
     case = {"cfg": cfg, "pre": pre, "op": op, "cont": cont, "rs": draw(st.integers(0, 2**31 - 2)), "as_counter": draw(st.booleans())}
     if log and kind == "add" and draw(st.booleans()):
